@@ -112,7 +112,7 @@ Definition join (a b : cmp) : cmp :=
 
 Section Rec.
   Variable g : graph.
-  Variable rec : obj -> obj -> list Z -> cmp.   (* equalObjects at depth+1, one unit of fuel less *)
+  Variable rec : obj -> obj -> list Z -> cmp.   (* equalObjectsD at depth+1, one unit of fuel less *)
 
   (* equalArrays: in order, returns at the first element that is not (true,nil) *)
   Fixpoint equalArrayElems (a1 a2 : list obj) (pairs : list Z) : cmp :=
@@ -169,18 +169,18 @@ Section Rec.
     end.
 End Rec.
 
-(* equalObjects(o1, o2, xRefTable, pairs, depth).  limit = xRefTable.MaxRecursionDepth()
+(* Go: equalObjects(o1, o2, xRefTable, pairs, depth).  limit = xRefTable.MaxRecursionDepth()
    (the configured limit, or the default when it is <= 0): CheckRecursionDepth fails when
    depth > limit.  equalArrays and equalDicts compare their elements at depth+1;
    equalStreamDicts -> equalDicts and the dispatch below keep depth. *)
-Fixpoint equalObjects (fuel : nat) (limit : Z) (g : graph) (o1 o2 : obj) (pairs : list Z)
+Fixpoint equalObjectsD (fuel : nat) (limit : Z) (g : graph) (o1 o2 : obj) (pairs : list Z)
                       (depth : Z) : cmp :=
   match fuel with
   | O => CFuel
   | S f =>
       if limit <? depth then CE                       (* ErrMaxRecursionDepthExceeded *)
       else
-      let rec := fun x y p => equalObjects f limit g x y p (depth + 1) in
+      let rec := fun x y p => equalObjectsD f limit g x y p (depth + 1) in
       match o1, o2 with
       | ORef n1 g1, ORef n2 g2 =>
           if (n1 =? n2) && (g1 =? g2) then CT
@@ -190,9 +190,9 @@ Fixpoint equalObjects (fuel : nat) (limit : Z) (g : graph) (o1 o2 : obj) (pairs 
       end
   end.
 
-(* EqualObjects(o1, o2, xRefTable, pairs) = equalObjects(o1, o2, xRefTable, pairs, 0) *)
+(* EqualObjects(o1, o2, xRefTable, pairs) = equalObjects(o1, o2, xRefTable, pairs, 0) in Go *)
 Definition EqualObjects (fuel : nat) (limit : Z) (g : graph) (o1 o2 : obj) (pairs : list Z) : cmp :=
-  equalObjects fuel limit g o1 o2 pairs 0.
+  equalObjectsD fuel limit g o1 o2 pairs 0.
 
 (* fuel that always suffices: one unit per nesting level up to the limit, one for the call
    that reports the excess *)
